@@ -202,6 +202,31 @@ theorem toerror_witnesses :
     toErrorWf {} [⟨[], 0⟩] = false ∧ toErrorWf {} [⟨errName, 0⟩] = false ∧ toErrorWf {} [⟨['f'], 0⟩] = false ∧
     toErrorWf Plumb.Cfg.fixed [⟨[], 0⟩] = true ∧ toErrorWf Plumb.Cfg.fixed [⟨errName, 0⟩] = true := by decide
 
+/-! ### which types count as `error` (`derive.IsError`) -/
+
+/-- whatever the generator accepts where an `error` is expected does implement `error` — except a type
+whose `Error` method has a pointer receiver and which is used by value (side condition; gone with
+`errRecvFixed`) -/
+theorem isError_sound_partial (cfg : Cfg) (t : ErrTy) (h : isError cfg t = true)
+    (hs : cfg.errRecvFixed = true ∨ t ≠ .namedPtrRecv) : implementsError t = true := by
+  cases t <;> simp_all [isError, implementsError]
+
+example : isError {} .namedNilable = true ∧ implementsError .namedNilable = true := by decide
+
+/-- today: the pointer-receiver type is accepted although it does not implement error; an accepted
+custom error type in RESULT position gives a helper that cannot be called (its parameter type says
+`error`); `*E` and named interfaces are refused although they implement error (clean refusal); a nil
+custom error handed to join is a non-nil `error`: `f` is not called and zero values come back with a
+non-nil error, where the specification runs `f` -/
+theorem isError_witnesses :
+    isError {} .namedPtrRecv = true ∧ implementsError .namedPtrRecv = false ∧
+    isError {} .namedNilable = true ∧ resultPosCompiles {} .namedNilable = false ∧
+    isError {} .namedStruct = true ∧ resultPosCompiles {} .namedStruct = false ∧
+    isError {} .pointerToNamed = false ∧ implementsError .pointerToNamed = true ∧
+    isError {} .nearMiss = false ∧ implementsError .nearMiss = false ∧
+    isError Cfg.fixed .namedPtrRecv = false ∧ resultPosCompiles Cfg.fixed .namedNilable = true ∧
+    joinE [0] ⟨fun _ => ([5], (none : Option Nat))⟩ (some 999) ≠ joinESpec [0] ⟨fun _ => ([5], none)⟩ none := by decide
+
 /-! ### zero values -/
 
 /-- `derive.Zero` is right for unnamed basic types and for every type whose underlying type is a
